@@ -515,7 +515,7 @@ theorem copyRef_ps (X : Ctx) (hX : NoClassDnc X) (hW : World X h₀ A T) :
                   exact hW.dnc i c thaw fs av.1 d av.2 hr (hnode.1 hlt) hd' hd hav
                 · cases hd
             · exact good_of_children_inst (hnode.2 (by omega)) av hav
-          refine (copyFields_ps _ ih (X.cd c) j c thaw hj fs [] m (good_of_children_inst hch) hD
+          refine (copyFields_ps _ ih (X.cd c) j c false hj fs [] m (good_of_children_inst hch) hD
             (fun av hav => by cases hav) hm).bind (fun m1 hm1 => ?_)
           have hpc : PS h₀ A (if (X.cd c).postCopy = true then callCb .postCopy else pure ())
               (fun _ => True) :=
@@ -743,7 +743,7 @@ theorem copyRef_frame (X : Ctx) :
           simp only
           refine Safe.ite (fun _ => Safe.pure trivial) (fun _ => ?_)
           refine (Safe.alloc _).bind (fun j hj => ?_)
-          refine (copyFields_frame _ ih (X.cd c) j c thaw hj fs [] m).bind (fun m1 _ => ?_)
+          refine (copyFields_frame _ ih (X.cd c) j c false hj fs [] m).bind (fun m1 _ => ?_)
           have hpc : Safe n₀ W (if (X.cd c).postCopy = true then callCb .postCopy else pure ())
               (fun _ => True) :=
             Safe.ite (fun _ => Safe.callCb _) (fun _ => Safe.pure trivial)
@@ -852,7 +852,7 @@ theorem deepcopy_inst_run (X : Ctx) (hX : NoClassDnc X) {i c : Nat} {t : Bool}
     {fs : List (Nat × Ref)} {s s' : MS} {r' : Ref} (hn : s.heap[i]? = some (.inst c t fs))
     (h : deepcopy X (.obj i) s = (.ok r', s')) :
     ∃ fs', r' = .obj s.heap.length ∧ FieldsRel (X.cd c) fs fs' ∧
-      s'.heap[s.heap.length]? = some (.inst c t fs') := by
+      s'.heap[s.heap.length]? = some (.inst c false fs') := by
   unfold deepcopy at h
   obtain ⟨hh, s0, h0, h1⟩ := bind_ok_inv h
   cases h0
@@ -872,10 +872,10 @@ theorem deepcopy_inst_run (X : Ctx) (hX : NoClassDnc X) {i c : Nat} {t : Bool}
   obtain ⟨u, s5, h10, h11⟩ := bind_ok_inv h9
   obtain ⟨hr, rfl⟩ := pure_ok_inv h11
   have hj3 : s2.heap.length < s3.heap.length := by rw [hheap]; simp
-  have hn3 : s3.heap[s2.heap.length]? = some (.inst c t []) := by
+  have hn3 : s3.heap[s2.heap.length]? = some (.inst c false []) := by
     rw [hheap]; simp
   obtain ⟨fs', hrel, hj', hn'⟩ := copyFields_run _ (fun n₀ r m => copyRef_frame X _ r m)
-    (X.cd c) _ c t fs [] [] s3 m2 s4 hj3 hn3 h8
+    (X.cd c) _ c false fs [] [] s3 m2 s4 hj3 hn3 h8
   have hheap5 : s5.heap = s4.heap := by
     split at h10
     · exact callCb_run h10
@@ -2343,7 +2343,7 @@ theorem copyRef_isObj {n₀ : Nat} {W : Nat → Prop} (X : Ctx) (fuel i : Nat) (
         simp only
         refine Safe.ite (fun _ => Safe.pure ⟨_, rfl⟩) (fun _ => ?_)
         refine (Safe.alloc _).bind (fun j hj => ?_)
-        refine (copyFields_frame _ (copyRef_frame X fuel) (X.cd c) j c thaw hj fs [] m).bind
+        refine (copyFields_frame _ (copyRef_frame X fuel) (X.cd c) j c false hj fs [] m).bind
           (fun m1 _ => ?_)
         have hpc : Safe n₀ W (if (X.cd c).postCopy = true then callCb .postCopy else pure ())
             (fun _ => True) :=
